@@ -67,6 +67,11 @@ def make_sub(name, env):
         s, sr = make_sub("bs2", env); c.add(s, 1, group=True); r.add(sr, 1)
         c.ps(0, env.PH[1]); r.ps(0, env.PH[1])
         c.barrier([1, 2])
+    elif name == "h2all":        # every mode heralded: the block has no visible mode at all
+        c = lw.Circuit(2); r = RefCircuit(2)
+        c.bs(0, reflectivity=env.R[1]); r.bs(0, 1, env.R[1])
+        c.herald(1, 0); r.herald(1, 0, 0)
+        c.herald(0, 1); r.herald(0, 1, 1)
     elif name == "bar2":         # holds a barrier (a list of modes that must move with the block)
         c = lw.Circuit(2); r = RefCircuit(2)
         c.bs(0, reflectivity=env.R2); r.bs(0, 1, env.R2)
